@@ -47,6 +47,9 @@ def gen_model(rng, order=None, nwords=None, unk=True, sloppy=False):
             cur = [ctx + ["</s>"]]
             if n > 2 and not sloppy and cur[0][1:] not in [x[1] for x in grams[n - 1]]:
                 grams[n - 1].append((dy(rng), cur[0][1:], dy(rng, 0, 100)))
+        if n < order and cur and all(g[-1] == "</s>" for g in cur) and prev:
+            # keep the chain alive: one n-gram that can serve as a context (a missing suffix only costs a blank)
+            cur.append(prev[0] + [body[0]])
         grams[n] = [(dy(rng), g, (dy(rng, 0, 100) if n < order else None)) for g in cur]
         prev = [g for g in cur if g[-1] != "</s>"]
         if not prev and n < order:
@@ -64,6 +67,32 @@ def gen_model(rng, order=None, nwords=None, unk=True, sloppy=False):
         if len(grams[n]) > 1:
             del grams[n][rng.below(len(grams[n]))]
     return {"order": order, "grams": grams}
+
+
+def gen_big_model(rng, nwords=700, nbigrams=2500):
+    """a valid order-3 model large enough for its binary files to span several pages (truncation by whole pages)"""
+    body = ["w%d" % i for i in range(nwords)]
+    vocab = ["<unk>", "<s>", "</s>"] + body
+    grams = {1: [("-99" if w == "<s>" else dy(rng), [w], None if w == "</s>" else dy(rng, 0, 100)) for w in vocab]}
+    bi = set()
+    while len(bi) < nbigrams:
+        bi.add((rng.choice(["<s>"] + body), rng.choice(body + ["</s>"])))
+    bi = sorted(bi)
+    grams[2] = [(dy(rng), list(g), dy(rng, 0, 100)) for g in bi]
+    starts = {}
+    for a, b in bi:
+        starts.setdefault(a, []).append(b)
+    tri = set()
+    for a, b in bi:
+        for c in starts.get(b, [])[:2]:
+            if rng.chance(1, 3):
+                tri.add((a, b, c))
+    if not tri:
+        a, b = bi[0]
+        tri.add((a, b, "</s>"))
+        grams[2].append((dy(rng), [b, "</s>"], dy(rng, 0, 100))) if (b, "</s>") not in bi else None
+    grams[3] = [(dy(rng), list(g), None) for g in sorted(tri)]
+    return {"order": 3, "grams": grams}
 
 
 def render(model, shuffle_rng=None):
@@ -517,6 +546,10 @@ def mutate_binary(rng, data):
     kind = rng.choice(["truncate", "truncate", "truncate", "magic", "version", "sanity", "order", "multiplier", "type", "has-vocab", "search-version",
                        "incomplete", "extend"])
     b = bytearray(data)
+    if kind == "truncate" and len(b) > 3 * 4096 and rng.chance(2, 3):
+        # whole pages off the end: a mapping of the announced size would reach past the end of the file
+        k = max(hdr + 1, len(b) - 4096 * rng.range(1, max(1, len(b) // 4096 - 1)) - rng.below(4096))
+        return bytes(b[:k]), "truncate:pages"
     if kind == "truncate":
         how = rng.below(6)
         k = [rng.below(SANITY + 1), rng.range(SANITY, hdr), rng.range(hdr, min(len(b), hdr + 64)), rng.below(len(b) + 1), max(0, len(b) - rng.range(1, 300)),
